@@ -117,8 +117,27 @@ func TestCheck(t *testing.T) {
 				verdict, _, _, why := w.ClassifyOp(actor, id)
 				n := 1 + r.Intn(3)
 				specs := g.History(n)
+				mixedReq := n > 1 && r.Intn(3) == 0
+				if held := w.X.M.HeldIDs(); !mixedReq && verdict != mon.OpApply && len(held) > 0 && r.Intn(2) == 0 {
+					// operation ids are only unique per stream: a rejected operation may carry
+					// the id of an operation the primary has held - which must stay held
+					for k := range specs {
+						if k < len(held) {
+							specs[k].Op.Id = held[(k+r.Intn(len(held)))%len(held)]
+						}
+					}
+					uniq := map[uint64]bool{}
+					for k := range specs {
+						for uniq[specs[k].Op.Id] {
+							specs[k].Op.Id = g.NextID
+							g.NextID++
+						}
+						uniq[specs[k].Op.Id] = true
+					}
+					run.Count("rejected_operations_reusing_the_id_of_a_held_operation", 1)
+				}
 				before := w.X.M.StateHash()
-				if n > 1 && r.Intn(3) == 0 {
+				if mixedReq {
 					// one request, individually stamped operations: the check is per operation
 					stamps := make([]*spb.Uint128, n)
 					mixed := false
